@@ -237,7 +237,11 @@ pub struct PanicInfo {
 impl PanicInfo {
     /// `panic|<repo-relative file>|<message with digits -> #, truncated>`
     pub fn signature(&self) -> String {
-        let file = self.file.strip_prefix("/repo/").unwrap_or(&self.file);
+        // path of the source file relative to the repository root, wherever the checkout lives
+        let file = match self.file.rfind("/repo/") {
+            Some(p) => &self.file[p + 6..],
+            None => &self.file,
+        };
         let mut msg = String::new();
         let mut last_hash = false;
         for c in self.message.chars().take(90) {
